@@ -211,8 +211,10 @@ func runC17Scenario(c *fw.Ctx, sc c17Scenario, seed int64) {
 	var measured *stamps
 	queue := 100
 	switch sc.Name {
-	case "too-busy-forever", "call-queue-forever", "region-opening-forever":
-		class := map[string]string{"too-busy-forever": sim.ExcTooBusy, "call-queue-forever": sim.ExcCallQueue, "region-opening-forever": sim.ExcRegionOpening}[sc.Name]
+	case "too-busy-forever", "call-queue-forever", "region-opening-forever", "throttling-forever", "retry-immediately-forever", "please-hold-forever":
+		// every class the client treats as "back off and resend to the same server"
+		class := map[string]string{"too-busy-forever": sim.ExcTooBusy, "call-queue-forever": sim.ExcCallQueue, "region-opening-forever": sim.ExcRegionOpening,
+			"throttling-forever": sim.ExcThrottling, "retry-immediately-forever": sim.ExcRetryImm, "please-hold-forever": sim.ExcPleaseHold}[sc.Name]
 		cl.OnAction = func(req *sim.Request, a *sim.Action) *sim.Exc {
 			if a.OpID == opid {
 				return &sim.Exc{Class: class}
@@ -419,7 +421,7 @@ func init() {
 		Rule: "(i) the real back-off function is executed for every step of the schedule (quick: waits up to 8.192 s, thorough: up " +
 			"to 33.192 s, in parallel) and for the start value 0; elapsed >= step and the returned next value are compared with " +
 			"an independently computed schedule; waits beyond the tier's limit are ended by cancellation (must return the " +
-			"context error promptly). (ii) persistent-failure scenarios {too-busy / call-queue / region-opening forever, abort " +
+			"context error promptly). (ii) persistent-failure scenarios {too-busy / call-queue / region-opening / throttling / retry-immediately / please-hold forever, abort " +
 			"exception forever, connection dropped on the request, on the probe, dial refused, region never online, meta " +
 			"silent, meta lookup error, ZooKeeper errors; retry-later alternating with not-serving; two connection-level answers then " +
 			"not-serving, repeated} x {single call, batch; CacheRegions for the meta and ZooKeeper scenarios}: client-side timestamps of consecutive attempts " +
@@ -433,7 +435,7 @@ func init() {
 			return fw.Plan{Batches: 2, Parallel: 2, Timeout: 6 * time.Minute}
 		},
 		Floors: func(tier string) map[string]int64 {
-			return map[string]int64{"schedule_steps_verified": 10, "scenarios": 28, "gaps_checked": 100, "attempts_observed": 120}
+			return map[string]int64{"schedule_steps_verified": 10, "scenarios": 34, "gaps_checked": 100, "attempts_observed": 120}
 		},
 		Run: func(c *fw.Ctx) {
 			maxStep := 8200 * time.Millisecond
@@ -447,7 +449,7 @@ func init() {
 				wg.Add(1)
 				go func() { defer wg.Done(); c17Function(c, maxStep) }()
 			}
-			names := []string{"too-busy-forever", "call-queue-forever", "region-opening-forever", "abort-exception-forever", "drop-on-user-frame",
+			names := []string{"too-busy-forever", "call-queue-forever", "region-opening-forever", "throttling-forever", "retry-immediately-forever", "please-hold-forever", "abort-exception-forever", "drop-on-user-frame",
 				"too-busy-and-not-serving-alternating", "abort-abort-not-serving-repeating",
 				"not-serving-forever-probe-ok", "drop-on-probe", "dial-refused", "region-never-online", "meta-silent", "meta-lookup-error", "zookeeper-errors"}
 			k := 0
